@@ -24,7 +24,13 @@ namespace
     Run *g = nullptr;
 
     // the same node fails with the SAME message every time (an error tick must not be suppressed because it equals the previous one)
-    std::string msg_of(long id, long) { return "boom id=" + std::to_string(id); }
+    // (a throw in an odd cycle carries a LONG message: the error tick must carry the exception's message, not a prefix of it)
+    std::string msg_of(long id, long cycle)
+    {
+        std::string m = "boom id=" + std::to_string(id);
+        if (cycle % 2 == 1) { m += " "; for (int i = 0; i < 260; ++i) m += "0123456789abcdef"[(i * 7 + id) % 16], m += "xyz-"; m += "END"; }
+        return m;
+    }
 
     struct Src
     {
@@ -190,7 +196,7 @@ namespace
         return o;
     }
 
-    std::string show(const std::vector<Tick> &v) { std::ostringstream o; for (auto &t : v) o << " t" << t.t << "=" << t.v; return o.str(); }
+    std::string show(const std::vector<Tick> &v) { std::ostringstream o; for (auto &t : v) { o << " t" << t.t << "="; if (t.v.size() > 48) o << t.v.substr(0, 40) << "...(" << t.v.size() << " chars)"; else o << t.v; } return o.str(); }
 
     struct Outcome { std::optional<std::string> violation; std::string sig, sig_class; bool nontrivial{false}; std::uint64_t ticks{0}; };
 
